@@ -130,8 +130,13 @@ def run(ctx):
         subprocess.run(['pkill', '-9', '-f', 'cmds/faulty.sh'])
     # golden run without the configured match string: status 1 before any minimisation
     text = make_input(rng, [])
+    cc = FAULTY + ' exit1'
+    cch = FAULTY + ' hang'
     for extra, cmdmode in ((['--match-out', 'nosuchstring'], 'exit1'), (['--match-err', 'nosuchstring'], 'exit1'),
-                           (['--match-out', 'bug', '--timeout', '0.3'], 'hang')):
+                           (['--match-out', 'bug', '--timeout', '0.3'], 'hang'),
+                           # the same for the match strings of the cross-check command (its golden run may also time out)
+                           (['-c', cc, '--match-out-cc', 'nosuchstring'], 'exit1'), (['-c', cc, '--match-err-cc', 'nosuchstring'], 'exit1'),
+                           (['-c', cch, '--match-out-cc', 'bug', '--timeout-cc', '0.3'], 'exit1')):
         r = e2e.run_ddsmt(text, ['--strategy', 'hybrid'] + extra, [FAULTY, cmdmode], timeout=120)
         ctx.case(['golden-match', extra, cmdmode], True)
         ctx.count('golden match-string validation')
